@@ -1,7 +1,7 @@
 //! packmc — the same logical container under every packaging (C10) and with every subset of its
 //! content packs made unavailable in every way (C11). Exhaustive over finite configuration sets.
 
-use jbkmc::dirmodel::populate;
+use jbkmc::dirmodel::{populate, DirSpec, EntrySpec, IndexSpec, PropSpec, SchemaSpec, Val};
 use jbkmc::dump::*;
 use jbkmc::gen::*;
 use jbkmc::packs::*;
@@ -192,6 +192,25 @@ fn c10_for(lname: &str, comp: Comp, thorough: bool, seed: u64) -> Vec<CaseOut> {
                 Ok(()) => record("concat-of-concat".into(), dump_vs_model(&l, &full).map(|_| ()), case("concat-of-concat")),
                 Err(e) => record("concat-of-concat".into(), Err(("concat failed".into(), e)), case("concat-of-concat")),
             }
+            // a history of concats: a pack handed over twice, the result concatenated again with the
+            // rest, and that result concatenated once more on its own into an empty directory
+            {
+                let d = base.path().join("cathist");
+                let far = d.join("far").join("away");
+                std::fs::create_dir_all(&far).unwrap();
+                let (s1, s2, s3) = (d.join("s1.jbk"), d.join("s2.jbk"), far.join("s3.jbk"));
+                let r = concat(&[files[0].clone(), files[1].clone()], &s1)
+                    .and_then(|_| {
+                        let mut v = vec![s1.clone(), files[1].clone()];
+                        v.extend(files[2..].iter().cloned());
+                        concat(&v, &s2)
+                    })
+                    .and_then(|_| concat(&[s2.clone()], &s3));
+                match r {
+                    Ok(()) => record("concat-history(duplicate input)".into(), dump_vs_model(&l, &s3).map(|_| ()), case("concat-history")),
+                    Err(e) => record("concat-history(duplicate input)".into(), Err(("concat failed".into(), e)), case("concat-history")),
+                }
+            }
             // partial concat (manifest + directory inside, content packs found through their location)
             let d = base.path().join("partial");
             std::fs::create_dir_all(&d).unwrap();
@@ -274,7 +293,7 @@ fn c10(args: &Args) -> ! {
     let mut rep = Report::new(
         "packmc",
         "C10",
-        "each logical container (shapes small / multi / multi2 with two extra content packs) x compression is created as OneFile, TwoFiles, NoConcat; with its extra packs written next to / below / beside / above the entry-point file, read in place and after moving the whole tree; with multi-byte file names and with pack files reached through symbolic links; its separate files are concatenated in every order (all permutations), a concat output is concatenated again, manifest+directory only (content through the recorded location), a decoy pack sits at the recorded location while the real one is inside, TwoFiles' files concatenated in both orders, and the one-file container is embedded after prefixes (lengths x 5 kinds); every packaging's full dump must equal the reference model's; non-trivial = every case; distinct by (logical, compression, packaging, order/prefix)",
+        "each logical container (shapes small / multi / multi2 with two extra content packs) x compression is created as OneFile, TwoFiles, NoConcat; with its extra packs written next to / below / beside / above the entry-point file, read in place and after moving the whole tree; with multi-byte file names and with pack files reached through symbolic links; its separate files are concatenated in every order (all permutations), a concat output is concatenated again, a history of three concats with one pack handed over twice ends in an empty directory, manifest+directory only (content through the recorded location), a decoy pack sits at the recorded location while the real one is inside, TwoFiles' files concatenated in both orders, and the one-file container is embedded after prefixes (lengths x 5 kinds); every packaging's full dump must equal the reference model's; non-trivial = every case; distinct by (logical, compression, packaging, order/prefix)",
     );
     let t = args.thorough();
     let mut configs: Vec<(&str, Comp)> = vec![];
@@ -581,11 +600,111 @@ fn c11_case(n: usize, lowlevel: bool, order: &[usize], inside: &[bool], comp: Co
     CaseOut { id, outcome: format!("ok:unavailable={}", assign.iter().filter(|a| a.is_some()).count()), violation: None }
 }
 
+/// Content packs whose ids are not 1..n: containers built with the low-level creators, ids taken
+/// from `ids` (in that listing order). Every address (id, i) must resolve, ids not listed must be
+/// unknown, and removing one pack file must turn exactly that pack's contents into MISSING.
+fn sparse_ids_case(ids: &[u16], comp: Comp) -> CaseOut {
+    let id = format!("sparse-ids {ids:?} {}", comp.name());
+    let case = json!({"engine":"packmc","sub":"c11","sparse_ids":ids,"comp":comp.name()});
+    let fail = |k: &str, w: String| CaseOut { id: id.clone(), outcome: "violation".into(), violation: Some((format!("C11 {k}"), w, case.clone())) };
+    let base = jbkmc::scratch_dir("sparse");
+    let d = base.path().to_path_buf();
+    let vendor = jbk::VendorId::from(VENDOR);
+    let content = |pid: u16, i: u32| -> Vec<u8> { format!("content {i} of pack {pid} {}", "x".repeat((pid % 7) as usize + i as usize)).into_bytes() };
+    let built = jbkmc::catch(|| -> Result<(), String> {
+        let mut m = jbk::creator::ManifestPackCreator::new(vendor, Default::default());
+        let mut dc = jbk::creator::DirectoryPackCreator::new(jbk::PackId::from(0), vendor, Default::default());
+        // one entry per content, holding its address
+        let spec = DirSpec {
+            schema: SchemaSpec { stores: vec![], common: vec![PropSpec::U, PropSpec::C], variants: vec![], sort: None },
+            entries: ids.iter().flat_map(|pid| (0..2u32).map(move |i| EntrySpec { variant: None, vals: vec![Val::U(*pid as u64 * 10 + i as u64), Val::C(*pid, i)] })).collect(),
+            indexes: vec![IndexSpec { name: "all".into(), offset: 0, count: ids.len() as u32 * 2 }],
+        };
+        populate(&spec, None, &mut dc);
+        let mut df = std::fs::OpenOptions::new().read(true).write(true).create(true).truncate(true).open(d.join("dir.jbkd")).map_err(|e| e.to_string())?;
+        let dinfo = dc.finalize().map_err(|e| e.to_string())?.write(&mut df).map_err(|e| e.to_string())?;
+        m.add_pack(dinfo, "dir.jbkd");
+        for pid in ids {
+            let p = d.join(format!("pack{pid}.jbkc"));
+            let up = camino::Utf8PathBuf::from_path_buf(p).unwrap();
+            let mut c = jbk::creator::ContentPackCreator::new(&up, jbk::PackId::from(*pid), vendor, Default::default(), comp.to_jbk()).map_err(|e| e.to_string())?;
+            for i in 0..2u32 {
+                c.add_content(Box::new(std::io::Cursor::new(content(*pid, i))), if i == 0 { jbk::creator::CompHint::Yes } else { jbk::creator::CompHint::No }).map_err(|e| e.to_string())?;
+            }
+            let (_f, info) = c.finalize().map_err(|e| e.to_string())?;
+            m.add_pack(info, format!("pack{pid}.jbkc"));
+        }
+        let mut mf = std::fs::OpenOptions::new().read(true).write(true).create(true).truncate(true).open(d.join("main.jbkm")).map_err(|e| e.to_string())?;
+        m.finalize(&mut mf).map_err(|e| e.to_string())?;
+        Ok(())
+    });
+    match built {
+        Ok(Ok(())) => {}
+        Ok(Err(e)) => return fail("creation failed (sparse pack ids)", e),
+        Err(p) => return fail(&format!("creation failed (sparse pack ids) {}", jbkmc::panic_site(&p)), p),
+    }
+    let entry = d.join("main.jbkm");
+    let probe = |removed: Option<u16>| -> Result<(), (String, String)> {
+        let o = open(&entry, Packaging::NoConcat).map_err(|e| ("container with sparse pack ids does not open".to_string(), e))?;
+        for pid in ids {
+            for i in 0..2u32 {
+                let got = o.get(*pid, i).map_err(|e| ("content of a pack with a sparse id: read error".to_string(), format!("{pid}/{i}: {e}")))?;
+                match (got, removed == Some(*pid)) {
+                    (Got::Bytes(b), false) if b == content(*pid, i) => {}
+                    (Got::Missing, true) => {}
+                    (Got::Bytes(_), false) => return Err(("content of an available pack reads differently".into(), format!("{pid}/{i} (sparse ids {ids:?})"))),
+                    (Got::NoSuchPack, _) => return Err(("a pack listed in the manifest is answered 'no such pack'".into(), format!("pack id {pid} of {ids:?}, removed: {removed:?}"))),
+                    (Got::Missing, false) => return Err(("an available pack is reported missing".into(), format!("pack id {pid} of {ids:?}, removed: {removed:?}"))),
+                    (other, avail) => return Err(("wrong answer for a content address".into(), format!("{pid}/{i}: {} (removed {removed:?}, available {})", match other { Got::Bytes(_) => "bytes", Got::NoSuchContent => "no such content", Got::NoSuchPack => "no such pack", Got::Missing => "missing" }, !avail))),
+                }
+            }
+            match o.get(*pid, 2) {
+                Ok(Got::NoSuchContent) => {}
+                Ok(Got::Missing) if removed == Some(*pid) => {}
+                other => return Err(("address past the content count: wrong answer".into(), format!("{pid}/2: {:?}", other.map(|_| "something else")))),
+            }
+        }
+        let max = *ids.iter().max().unwrap();
+        for unknown in [max.saturating_add(1), 0u16.max(ids.iter().min().unwrap().saturating_sub(1)), 99] {
+            if ids.contains(&unknown) || unknown == 0 {
+                continue;
+            }
+            match o.get(unknown, 0) {
+                Ok(Got::NoSuchPack) => {}
+                other => return Err(("unknown pack id: wrong answer".into(), format!("pack {unknown}: {:?}", other.map(|_| "not 'no such pack'")))),
+            }
+        }
+        match o.check() {
+            Ok(true) => Ok(()),
+            other => Err(("check() of the container is not Ok(true)".into(), format!("{other:?} (removed {removed:?})"))),
+        }
+    };
+    let run = |removed: Option<u16>| jbkmc::catch(|| probe(removed));
+    match run(None) {
+        Ok(Ok(())) => {}
+        Ok(Err((k, w))) => return fail(&k, w),
+        Err(p) => return fail(&format!("panic {}", jbkmc::panic_site(&p)), p),
+    }
+    for pid in ids {
+        let f = d.join(format!("pack{pid}.jbkc"));
+        let keep = std::fs::read(&f).unwrap();
+        std::fs::remove_file(&f).unwrap();
+        let r = run(Some(*pid));
+        std::fs::write(&f, keep).unwrap();
+        match r {
+            Ok(Ok(())) => {}
+            Ok(Err((k, w))) => return fail(&k, w),
+            Err(p) => return fail(&format!("panic {}", jbkmc::panic_site(&p)), p),
+        }
+    }
+    CaseOut { id, outcome: "ok:sparse pack ids".into(), violation: None }
+}
+
 fn c11(args: &Args) -> ! {
     let mut rep = Report::new(
         "packmc",
         "C11",
-        "containers with n in {1,2,3} (thorough: 4) content packs in separate files, built by BasicCreator NoConcat+extras and by the low-level creators with the manifest listing the directory and the content packs in every order (n<=2, thorough n<=3) or in identity/reversed/rotated orders; every subset of the content packs x every way {removed, replaced by a directory, replaced by a different valid content pack with the same content count} per member (full product); the same with every non-empty subset of the packs also held inside the entry-point file (concat), where the file at the recorded location must not matter; oracle: opens, every entry as the model, available contents read, unavailable ones MISSING with the recorded uuid/id/location, check() true, unknown pack id -> none; non-trivial = at least one pack unavailable",
+        "containers with n in {1,2,3} (thorough: 4) content packs in separate files, built by BasicCreator NoConcat+extras and by the low-level creators with the manifest listing the directory and the content packs in every order (n<=2, thorough n<=3) or in identity/reversed/rotated orders; every subset of the content packs x every way {removed, replaced by a directory, replaced by a different valid content pack with the same content count} per member (full product); the same with every non-empty subset of the packs also held inside the entry-point file (concat), where the file at the recorded location must not matter; plus containers whose content packs carry ids that are not 1..n ({5}, {1,5}, {5,1}, {2,3}, {300}, {1,300,2}, {256,255}, {65535,1}), each pack removed in turn; oracle: opens, every entry as the model, available contents read, unavailable ones MISSING with the recorded uuid/id/location, check() true, unknown pack id -> none; non-trivial = at least one pack unavailable",
     );
     let t = args.thorough();
     let ways = [None, Some(Unavail::Removed), Some(Unavail::Directory), Some(Unavail::OtherPack)];
@@ -659,6 +778,17 @@ fn c11(args: &Args) -> ! {
             if k.contains("MACHINERY") {
                 rep.machinery_errors.push(w);
             } else {
+                rep.violation(&k, &w, c);
+            }
+        }
+    }
+    // pack ids that are not 1..n
+    if args.replay.is_none() {
+        let sets: Vec<Vec<u16>> = vec![vec![5], vec![1, 5], vec![5, 1], vec![2, 3], vec![300], vec![1, 300, 2], vec![256, 255], vec![65_535, 1]];
+        let sparse: Vec<CaseOut> = sets.par_iter().flat_map(|ids| [Comp::None, Comp::Zstd(5)].into_iter().map(|c| sparse_ids_case(ids, c)).collect::<Vec<_>>()).collect();
+        for r in sparse {
+            rep.case(Some(&r.id), &r.outcome);
+            if let Some((k, w, c)) = r.violation {
                 rep.violation(&k, &w, c);
             }
         }
